@@ -216,6 +216,21 @@ def make_solver(name, cls):
     return Counting(**kw), counter
 
 
+def used_solver(linsolve_module):
+    """name of the innermost solver object a LinSolve module ended up with (outcome tag only, never judged)"""
+    try:
+        sv = linsolve_module.solver
+        wrapped = type(sv).__name__ == 'LDAWrapper'
+        if wrapped:
+            sv = sv.solver
+        name = type(sv).__name__.replace('Solver', '')
+        if getattr(sv, 'success', None) is False:
+            name += '>LDL'
+        return ('LDAS+' if wrapped else '') + name
+    except Exception:  # noqa
+        return 'unknown'
+
+
 def iterative(name):
     return name in ('cg', 'cg_sor')
 
@@ -347,7 +362,7 @@ def run_linsolve_point(acc, m, sA, sb, A, b, b2, cls, sig, point, solver, lda, c
                 acc.violation('repeat_differs', dict(sig), point, first=x_first, second=x, err=err, bound=bound)
                 acc.outcomes.add('repeat_differs')
                 return
-    acc.outcomes.add(f"ok/{'c' if np.iscomplexobj(x) else 'r'}")
+    acc.outcomes.add(f"ok/{used_solver(m)}/{'c' if np.iscomplexobj(x) else 'r'}")
 
 
 # ----------------------------------------------------------------------------------------------------------------------
@@ -603,7 +618,8 @@ def run_soe_point(acc, m, sigs, A, f_idx, p_idx, bf, xp, symlabel, point, counte
                     acc.violation('repeat_differs', dict(base, output=nm), point, err=err, bound=bound)
                     acc.outcomes.add('repeat_differs')
                     return
-    acc.outcomes.add(f"ok/{symlabel}/{'c' if np.iscomplexobj(x) else 'r'}")
+    acc.outcomes.add(f"ok/{symlabel}/{used_solver(getattr(m, 'module_LinSolve', None))}/"
+                     f"{'c' if np.iscomplexobj(x) else 'r'}")
 
 
 # ----------------------------------------------------------------------------------------------------------------------
@@ -745,7 +761,8 @@ def exec_sc(case):
                         done = True
                         break
             if not done:
-                acc.outcomes.add(f"ok/{symlabel}/{'c' if np.iscomplexobj(S) else 'r'}")
+                acc.outcomes.add(f"ok/{symlabel}/{used_solver(getattr(mod, 'module_LinSolve', None))}/"
+                                 f"{'c' if np.iscomplexobj(S) else 'r'}")
     return acc.result()
 
 
@@ -833,8 +850,16 @@ def plan(tier):
         'linsolve_family_storage': {str(n): STORAGES for n in SIZES_LS}, 'linsolve_family_axes': LS_AXES_FULL,
         'linsolve_pattern_storage': STORAGES, 'linsolve_pattern_rhs_dtype': 'real and complex',
         'linsolve_pattern_axes': LS_AXES_FULL,
-        'soe': [{'n': n, 'families': 'all', 'storage': ['csc', 'csr'], 'axes': [SOE_AXES_FULL]} for n in SIZES_PART],
-        'sc': [{'n': n, 'families': 'all', 'storage': ['csc', 'csr'], 'axes': [SC_AXES_FULL]} for n in SIZES_PART],
+        'soe': [{'n': 3, 'families': 'all', 'storage': ['csc', 'csr'], 'axes': [SOE_AXES_FULL]},
+                {'n': 4, 'families': 'all', 'storage': ['csc'], 'axes': [SOE_AXES_FULL]},
+                {'n': 4, 'families': 'all', 'storage': ['csr'], 'axes': [SOE_AXES_QUICK, SOE_AXES_QUICK_DESC]},
+                {'n': 5, 'families': 'all', 'storage': ['csc'], 'axes': [SOE_AXES_FULL]},
+                {'n': 5, 'families': 'all', 'storage': ['csr'], 'axes': [SOE_AXES_QUICK, SOE_AXES_QUICK_DESC]}],
+        'sc': [{'n': 3, 'families': 'all', 'storage': ['csc', 'csr'], 'axes': [SC_AXES_FULL]},
+               {'n': 4, 'families': 'all', 'storage': ['csc', 'csr'], 'axes': [SC_AXES_FULL]},
+               None,
+               {'n': 5, 'families': 'all', 'storage': ['csc', 'csr'], 'axes': [SC_AXES_FULL]},
+               None],
         'patterns_in_partition_modules': {'storage': ['csc'], 'soe_axes': SOE_AXES_PATTERNS, 'sc_axes': SC_AXES_FULL}}
 
 
@@ -905,10 +930,12 @@ def generate(tier, seed):
 
     for spec_soe, spec_sc in zip(pl['soe'], pl['sc']):
         for kind, spec, fn in (('soe', spec_soe, soe_cases), ('sc', spec_sc, sc_cases)):
+            if spec is None:
+                continue
             n = spec['n']
             fams = family_names(n) if spec['families'] == 'all' else [f for f in family_names(n)
                                                                       if f in spec['families']]
-            yield {'__level__': f'{kind}/n{n}'}
+            yield {'__level__': f"{kind}/n{n}/{'+'.join(spec['storage'])}"}
             yield from fn(fams, n, spec['storage'], spec['axes'])
     pp = pl['patterns_in_partition_modules']
     if pp:
